@@ -382,6 +382,32 @@ def run(ctx):
         from ..terms import replace
         rest = replace(sup, {x: ("const", "<valid list>") for x in subterms(sup) if strip(x) == rets[0]})
         sup_ok = not any(x[0] in ("param", "attr", "loopvar", "await", "iter", "top") for x in subterms(rest))
+
+        def ev_n(t, n):
+            """value of the flag expression when the valid list holds n responses (None: not one of the simple forms)"""
+            t = strip(t)
+            if t == ("const", "<valid list>"):
+                return ["x"] * n
+            if is_const(t):
+                return t[1]
+            if t[0] == "call" and t[1] == ("ext", "len") and len(t[2]) == 1:
+                v = ev_n(t[2][0], n)
+                return len(v) if isinstance(v, list) else None
+            if t[0] == "call" and t[1] == ("ext", "bool") and len(t[2]) == 1:
+                v = ev_n(t[2][0], n)
+                return None if v is None else bool(v)
+            if t[0] == "un" and t[1] == "not":
+                v = ev_n(t[2], n)
+                return None if v is None else not v
+            if t[0] == "cmp" and t[1] in (">", ">=", "<", "<=", "==", "!="):
+                a, b = ev_n(t[2], n), ev_n(t[3], n)
+                if a is None or b is None or isinstance(a, list) != isinstance(b, list):
+                    return None
+                return {">": a > b, ">=": a >= b, "<": a < b, "<=": a <= b, "==": a == b, "!=": a != b}[t[1]]
+            return None
+        v0, v1, v3 = ev_n(rest, 0), ev_n(rest, 1), ev_n(rest, 3)
+        if sup_ok and None not in (v0, v1, v3) and (bool(v0) or not bool(v1) or not bool(v3)):
+            sup_ok = False          # (a function of the count, but not "at least one": e.g. `len(valid) >= 0` is true for an exchange without a valid frame)
     if not sup_ok and sup is not None and rets and len(set(rets)) == 1 and rets[0][0] == "loopvar" and strip(sup)[0] == "loopvar" and strip(sup)[2] == rets[0][2]:
         # a flag raised in the loop exactly where a response is appended: False before the loop, True on the back edges that append, unchanged on the others
         from ..helpers import flag_tracks_list
